@@ -7,10 +7,11 @@ A case is a plain-JSON value
    'prices': [{'T', 'form', 'data': {key: [floats]}, 'index_grid'?}]   (index = price id; forms: dict of arrays,
                                     dict of lists, dict of Series, DataFrame with RangeIndex / DatetimeIndex),
    'history': [call, ...],
-   'stream'?: 'freq' | 'data'  (which generator made the case; informative only)}
+   'stream'?: 'freq' | 'data' | 'ramp'  (which generator made the case; informative only)}
 Generators: gen_case (general), gen_state_case (slot logic), gen_freq_case (assets with an own frequency equal to the step of one
 of the grids, in any spelling, over finer / coarser / equal grids), gen_data_case (plant / CHP parameters keyed into the price data,
-repeated set-ups of the same portfolio on the same grid object with several data sets).
+repeated set-ups of the same portfolio on the same grid object with several data sets), gen_ramp_case (plants / CHPs with start /
+shutdown ramp profiles, ramp_freq None or set, minimum run / down times, over grids that differ in step AND main time unit).
 A call is {'op': ..., ...} with op one of
   asset_setup {asset, grid, reuse, prices}      asset.setup_optim_problem(prices, tg)
   set_timegrid {asset, grid, reuse}             asset.set_timegrid(tg)
@@ -33,10 +34,15 @@ fresh grid object and fresh price containers; and the history run raises iff the
 calls (extract / dcf / fill_level / make_slp) on an op whose assets still sit on the grid of that op the tables are
 compared with those of a fresh tree fed with the same result vector.  In-place changes of user data (parameter
 containers inside the assets, price containers, fix_time_window dicts) are reported as facts
-{'kind': 'user_data_changed', ...}; they are attached to a violation, they are not violations by themselves.
+{'kind': 'user_data_changed', ...}; they are attached to a violation, they are not violations by themselves - with one exception,
+the oracle `parameter_changed`: a CONSTRUCTOR PARAMETER of an asset (names from inspect.signature of the class and its bases) that
+holds another value after a set-up call (or set_timegrid) than after construction, beyond the accepted normalisation of its form
+(scalar -> one-element list, index / array -> list; level 'form'), is a violation ("does not alter user-supplied parameters":
+e.g. a default that is resolved from the grid of the call and written back to the object).
 """
 import copy
 import datetime as dt
+import inspect
 import math
 import random
 import types
@@ -229,8 +235,9 @@ CUTS = (0.2, 0.28, 0.36, 0.58, 0.68, 0.72, 0.78, 0.86, 0.90, 0.94, 0.97)
 CUTS_PF = (0.08, 0.12, 0.16, 0.56, 0.66, 0.72, 0.82, 0.90, 0.93, 0.96, 0.98)
 
 
-def finish_case(rnd, base, grids, hist_len=None, n_price_sets=(1, 2), reuse_p=0.6, cuts=CUTS, end_cut=0.75, mismatch_p=0.07):
-    """price containers for every grid and a random history over `base` and `grids` (see the module text for the calls)"""
+def finish_case(rnd, base, grids, hist_len=None, n_price_sets=(1, 2), reuse_p=0.6, cuts=CUTS, end_cut=0.75, mismatch_p=0.07, prefer=None):
+    """price containers for every grid and a random history over `base` and `grids` (see the module text for the calls);
+    `prefer`: asset names that calls on single assets name in 7 of 10 cases (None: all names alike)"""
     Ts = [_T(g) for g in grids]
     keys = list(base['prices'].keys())
     prices = [{'T': Ts[0], 'form': 'dict', 'data': {k: list(v) for k, v in base['prices'].items()}}]
@@ -257,6 +264,11 @@ def finish_case(rnd, base, grids, hist_len=None, n_price_sets=(1, 2), reuse_p=0.
             return rnd.randrange(len(prices))
         return rnd.choice(ok)
 
+    def pick_name():
+        if prefer and rnd.random() < 0.7:
+            return rnd.choice(prefer)
+        return rnd.choice(names)[0]
+
     T_of_interval = lambda gid: _tick(max(1, Ts[gid] // rnd.choice([2, 3])) * grids[gid]['step_s'])
     have_op = False
     have_res = False
@@ -268,12 +280,12 @@ def finish_case(rnd, base, grids, hist_len=None, n_price_sets=(1, 2), reuse_p=0.
         if last and r > end_cut:
             r = rnd.random() * end_cut      # a history ends with a set-up call
         if r < cuts[0]:
-            c = {'op': 'asset_setup', 'asset': rnd.choice(names)[0], 'grid': gid, 'reuse': reuse, 'prices': pick_prices(gid)}
+            c = {'op': 'asset_setup', 'asset': pick_name(), 'grid': gid, 'reuse': reuse, 'prices': pick_prices(gid)}
         elif r < cuts[1]:
-            hist.append({'op': 'set_timegrid', 'asset': rnd.choice(names)[0], 'grid': gid, 'reuse': reuse})
+            hist.append({'op': 'set_timegrid', 'asset': pick_name(), 'grid': gid, 'reuse': reuse})
             c = {'op': 'asset_noarg', 'asset': hist[-1]['asset'], 'prices': pick_prices(gid, 0)}
         elif r < cuts[2]:
-            c = {'op': 'asset_noarg', 'asset': rnd.choice(names)[0], 'prices': pick_prices(gid, 0.0)}
+            c = {'op': 'asset_noarg', 'asset': pick_name(), 'prices': pick_prices(gid, 0.0)}
         elif r < cuts[3]:
             c = {'op': 'pf_setup', 'grid': gid, 'reuse': reuse, 'prices': pick_prices(gid)}
             if rnd.random() < 0.2:
@@ -319,11 +331,13 @@ SPELL = {900: ['15min', '900s'], 1800: ['30min', '1800s'], 3600: ['h', '1h', '60
 FREQ_TYPES = ('SimpleContract', 'Contract', 'Transport', 'Storage', 'MultiCommodityContract', 'ExtendedTransport')
 PLANT_TYPES = ('Plant', 'CHPAsset', 'CHPAsset_with_min_load_costs')
 FREQ_GRIDS = [g for g in gen.GRIDS if g[0] != '15min']
+UNITS = ('h', 'd', 'min')
 
 
-def freq_grid_variants(rnd, g0, n, tmax=32):
+def freq_grid_variants(rnd, g0, n, tmax=32, unit_p=0.0):
     """grids over (about) the horizon of g0 whose step is a divisor / a multiple of g0's step or the same step, the frequency written
-    in any accepted spelling; some also shifted or shortened by whole steps of g0"""
+    in any accepted spelling; some also shifted or shortened by whole steps of g0; with probability `unit_p` the MAIN TIME UNIT of the
+    variant is another one than that of g0 (0: never, the random stream is then the one without this option)"""
     out = []
     step0 = g0['step_s']
     s0, e0 = pd.Timestamp(g0['start']), pd.Timestamp(g0['end'])
@@ -346,6 +360,8 @@ def freq_grid_variants(rnd, g0, n, tmax=32):
         if kind != 'same':
             sp = [f for f in SPELL[g['step_s']] if not (kind == 'respell' and f == g0['freq'])]
             g['freq'] = rnd.choice(sp)
+        if unit_p and rnd.random() < unit_p:
+            g['unit'] = rnd.choice([u for u in UNITS if u != g0['unit']])
         r = rnd.random()
         st0 = pd.Timedelta(seconds=step0)
         if r < 0.2:
@@ -469,6 +485,58 @@ def gen_data_case(rnd):
     grids = [g0] + grid_variants(rnd, g0, rnd.randint(0, 1))
     case = finish_case(rnd, base, grids, hist_len=rnd.randint(3, 9), n_price_sets=(2, 3), reuse_p=0.9, cuts=CUTS_PF, end_cut=0.82, mismatch_p=0.03)
     case['stream'] = 'data'
+    return case
+
+
+# ----- stream "ramp": plants / CHPs with start and shutdown ramp PROFILES over grids that differ in step AND main time unit
+# (everything a plant is given as a duration - profiles without ramp_freq, minimum run / down times, times already run - is read in the
+# main time unit of the grid of the CALL; a default resolved from the grid during one set-up must not stick to the object)
+CUTS_RAMP = (0.30, 0.36, 0.42, 0.70, 0.78, 0.81, 0.86, 0.91, 0.94, 0.96, 0.98)
+PROFILE_ARGS = tuple('%s_ramp_%s_bounds%s' % (a, b, c) for a in ('start', 'shutdown') for b in ('lower', 'upper') for c in ('', '_heat'))
+
+
+def vary_ramp_profiles(rnd, base, p=0.8):
+    """plants / CHPs of the scenario get, with probability `p`, start and / or shutdown ramp profiles (power, for CHPs in 4 of 10 cases
+    also heat; lists or arrays; `ramp_freq` left at None in 2 of 3 cases, else a frequency around the step of the base grid) from the
+    profile generator of the CHP component (harness/comp/chp.py `gen_profiles`), and minimum run / down times and a ramp if they have none"""
+    from . import chp as CHP          # (imported here: the CHP component is not needed by the other streams)
+    g = base['grid']
+    T = g['T_nominal']
+    for a in scen.all_asset_specs(base):
+        if a['type'] not in PLANT_TYPES:
+            continue
+        args = a['args']
+        if rnd.random() < p:
+            CHP.gen_profiles(rnd, {'kind': 'portfolio'}, args, a['type'] != 'Plant', g['freq'], g['unit'], T)
+        if 'min_runtime' not in args and rnd.random() < 0.5:
+            args['min_runtime'] = float(rnd.randint(1, 4))
+        if 'min_downtime' not in args and rnd.random() < 0.3:
+            args['min_downtime'] = float(rnd.randint(1, 3))
+            if args['min_downtime'] > 1 and not ('time_already_running' in args or 'time_already_off' in args):
+                args[rnd.choice(['time_already_running', 'time_already_off'])] = float(rnd.randint(1, 3))
+        if 'ramp' not in args and rnd.random() < 0.3:
+            args['ramp'] = gen.q8(rnd, 1, 4)
+    return base
+
+
+def gen_ramp_case(rnd):
+    """histories over portfolios around plants / CHPs WITH START / SHUTDOWN RAMP PROFILES (ramp_freq None or set), minimum run / down
+    times and ramps, on 2-4 grids of one horizon that differ in step (finer / coarser / same, any spelling) and - 6 of 10 variants -
+    in the MAIN TIME UNIT (h / d / min); calls on single assets name a plant in 7 of 10 cases"""
+    kinds = ['plant', 'plant', 'plant', 'chp', 'chp', 'chp', 'simple', 'contract', 'storage', 'transport', 'structured']
+    allow_mip = rnd.random() < 0.7
+    for _ in range(5):
+        base = gen.gen_portfolio(rnd, kinds=kinds, tmax=8, tz_prob=0.1, allow_mip=allow_mip, max_assets=rnd.choice([1, 2, 3]), nodes_max=3,
+                                 allow_freq=False, allow_periodic=False, allow_blocks=False, grids=FREQ_GRIDS)
+        if any(a['type'] in PLANT_TYPES for a in scen.all_asset_specs(base)):
+            break
+    vary_ramp_profiles(rnd, base)
+    vary_forms(rnd, base)
+    g0 = {k: v for k, v in base['grid'].items()}
+    grids = [g0] + freq_grid_variants(rnd, g0, rnd.randint(1, 3), tmax=16, unit_p=0.6)
+    plants = [a['name'] for a in scen.all_asset_specs(base) if a['type'] in PLANT_TYPES]
+    case = finish_case(rnd, base, grids, cuts=CUTS_RAMP, mismatch_p=0.03, prefer=plants)
+    case['stream'] = 'ramp'
     return case
 
 
@@ -856,8 +924,35 @@ def run_read_call(world, call, op, res, prices, tg):
     raise ValueError(o)
 
 
+def ctor_params(obj):
+    """names of the constructor parameters of the object's class and of its base classes (what the user can hand over)"""
+    out = set()
+    for cls in type(obj).__mro__:
+        init = cls.__dict__.get('__init__')
+        if init is None or cls is object:
+            continue
+        try:
+            out |= {n for n, q in inspect.signature(init).parameters.items() if n != 'self' and q.kind not in (q.VAR_POSITIONAL, q.VAR_KEYWORD)}
+        except (TypeError, ValueError):
+            pass
+    return out
+
+
+def _param_change(world, ctor, fact):
+    """(asset name, parameter) if the fact says that a CONSTRUCTOR PARAMETER of an asset changed its value beyond the accepted
+    normalisation of its form (scalar -> one-element list, index / array -> list: level 'form'), else None"""
+    if fact.get('kind') != 'user_data_changed' or fact.get('level') != 'semantic' or not fact['what'].startswith('asset '):
+        return None
+    for name in world.byname:
+        pre = 'asset %s.' % name
+        if fact['what'].startswith(pre) and fact['what'][len(pre):] in ctor[name]:
+            return name, fact['what'][len(pre):]
+    return None
+
+
 def execute(case, compare=True, stop_at_first=False):
-    """runs the history; returns dict(violations, facts, features, n_compared, error?)"""
+    """runs the history; returns dict(violations, facts, features, n_compared, error?).
+    stop_at_first: True = stop after the first call with a violation, a string = after the first violation of that kind"""
     out = {'violations': [], 'facts': [], 'features': [], 'n_compared': 0, 'n_calls': len(case['history'])}
     feats = out['features']
     with Quiet():
@@ -870,6 +965,7 @@ def execute(case, compare=True, stop_at_first=False):
     ctx = Ctx(H)
     snap = Snap()
     snap.update(H, -1)
+    ctor = {n: ctor_params(a) for n, a in H.byname.items()}
     for i, call0 in enumerate(case['history']):
         call = dict(call0)
         o = call['op']
@@ -1049,19 +1145,31 @@ def execute(case, compare=True, stop_at_first=False):
                         feats.append('both-raise-readout:' + err_class(h_err))
         new_facts = snap.update(H, i)
         out['facts'] += new_facts
-        if viol is not None:
+        viols = [viol + (None,)] if viol is not None else []
+        if o in SETUP_OPS or o == 'set_timegrid':
+            # oracle parameter_changed: a set-up "does not alter user-supplied parameters": the constructor parameters of every asset
+            # hold after the call what they held after construction (up to the accepted normalisation of the form)
+            for f in new_facts:
+                pc = _param_change(H, ctor, f)
+                if pc is not None:
+                    viols.append(('parameter_changed', 'parameter %s of asset %s (%s) changed by the call: %s -> %s' % (
+                        pc[1], pc[0], type(H.byname[pc[0]]).__name__, f['before'], f['after']), pc))
+                    break
+        for vk, vdetail, pc in viols:
             changed = [f for f in out['facts'] if f['kind'] == 'user_data_changed']
-            out['violations'].append({'oracle': 'history_' + viol[0],
-                                      'detail': 'call %d (%s): %s' % (i, _call_str(call0), viol[1]),
-                                      'facts': {'kind': viol[0], 'call': i, 'op': o, 'history_ops': [c['op'] for c in case['history'][:i + 1]],
+            who = pc[0] if pc is not None else call.get('asset')
+            out['violations'].append({'oracle': 'parameter_changed' if pc is not None else 'history_' + vk,
+                                      'detail': 'call %d (%s): %s' % (i, _call_str(call0), vdetail),
+                                      'facts': {'kind': vk, 'call': i, 'op': o, 'history_ops': [c['op'] for c in case['history'][:i + 1]],
                                                 'user_data_changed': changed[:5], 'shared_grid_object': bool(call.get('reuse')),
-                                                'asset_type': type(H.byname[call['asset']]).__name__ if 'asset' in call else None,
+                                                'asset_type': type(H.byname[who]).__name__ if who is not None else None,
+                                                'parameter': pc[1] if pc is not None else None,
                                                 'nested': ('asset' in call and call['asset'] not in [a.name for a in H.assets]),
                                                 'prices_form': (case['prices'][call['prices']]['form'] if isinstance(call.get('prices'), int)
                                                                 and call['prices'] < len(case['prices']) else None),
                                                 'prices_changed_before': any(f['what'].startswith('prices') for f in changed)}})
-            if stop_at_first:
-                break
+        if viols and (stop_at_first is True or any(v[0] == stop_at_first for v in viols)):
+            break
     return out
 
 
@@ -1072,7 +1180,8 @@ def _call_str(c):
 # ===================================================================== shrinking
 def _fails(case, kind):
     try:
-        r = execute(case, stop_at_first=True)
+        # (a changed parameter shows on the history side alone: no fresh trees needed while shrinking)
+        r = execute(case, compare=(kind != 'parameter_changed'), stop_at_first=kind)
     except Exception:
         return False
     return any(v['facts']['kind'] == kind for v in r['violations'])
@@ -1081,7 +1190,7 @@ def _fails(case, kind):
 def shrink(case, kind, budget=80):
     """greedy: cut after the failing call, drop calls, drop assets, drop user-data forms; keeps failing with the same oracle kind"""
     cur = copy.deepcopy(case)
-    r = execute(cur, stop_at_first=True)
+    r = execute(cur, stop_at_first=kind)
     vs = [v for v in r['violations'] if v['facts']['kind'] == kind]
     if not vs:
         return cur
@@ -1130,7 +1239,7 @@ def oracle(case, impl_result, do_shrink=True):
         if do_shrink:
             try:
                 small = shrink(case, k)
-                r2 = execute(small, stop_at_first=True)
+                r2 = execute(small, stop_at_first=k)
                 v2 = [x for x in r2['violations'] if x['facts']['kind'] == k]
                 if v2:
                     v = dict(v2[0])
@@ -1833,7 +1942,7 @@ PARTIAL = [
     '(b) the state after an exception other than "no grid set" (the comparison of a history stops there); (c) LinkedAsset and wrappers nested in wrappers (not generated, not modelled); '
     '(d) the two OLD code versions of the model (rederive / scaledOwnGrid = false) were compared once with the trees before 7e0d787 / 19afd7c on the counterexample histories, not on every run',
 ]
-COMPONENTS = ['history oracle: n-th set-up on the same objects vs a fresh object tree and fresh grid (exact comparison of c, l, u, rows, mapping)',
+COMPONENTS = ['history oracle: n-th set-up on the same objects vs a fresh object tree and fresh grid (exact comparison of c, l, u, rows, mapping); constructor parameters of all assets unchanged by set-up calls (parameter_changed)',
               'state-model: Lean slot model (state_run) vs slots and grid pointers of the real objects after every operation, and what every builder read']
 RULE = ('random histories of 2-8 calls (asset/portfolio/split set-up with and without grid argument, skip nodes, fix windows, optimise incl. soft-then-plain, extract_output, dcf, fill_level, make_slp, to_json, '
         'cost samples, io.optimize) on the same objects over 1-3 grid variants (shifted, other frequency, zone, main time unit, same object reused or fresh) and price containers in 5 forms, plus slot-logic histories of 3-8 '
@@ -1841,7 +1950,10 @@ RULE = ('random histories of 2-8 calls (asset/portfolio/split set-up with and wi
         'plus stream "freq": the same kind of histories over assets WITH AN OWN FREQUENCY equal to the step of one of the grids of the case (written like the grid\'s or differently: h / 60min / 3600s, d / 1d / 24h) '
         'on 2-4 grids of one horizon with finer / coarser / equal step, plus stream "data": histories of 3-9 calls weighted towards repeated set-ups of the whole portfolio on the SAME grid object (1-2 grids, reuse 0.9) '
         'with 2-3 data sets per grid, over portfolios around plants / CHPs with fuel and heat nodes whose fuel_efficiency, consumption_if_on, start_fuel, conversion_factor_power_heat, max_share_heat, start / running / '
-        'min-load costs are KEYS into the data (or interval dicts); features stream:* / case:* count these situations; every history runs through the fresh-object oracle AND the state-model '
+        'min-load costs are KEYS into the data (or interval dicts), plus stream "ramp": histories over portfolios around plants / CHPs with START / SHUTDOWN RAMP PROFILES (power and heat, lists or arrays, ramp_freq None = main time unit of the grid '
+        'of the call, or set), minimum run / down times and ramps on 2-4 grids of one horizon that differ in step and (6 of 10 variants) in the MAIN TIME UNIT h / d / min, calls on single assets naming a plant in 7 of 10 cases; '
+        'features stream:* / case:* count these situations; after every set-up call the constructor parameters of all assets are compared with their values after construction (oracle parameter_changed; normalisation of the form accepted); '
+        'every history runs through the fresh-object oracle AND the state-model '
         'comparison; features state-op:* (model calls), state-read:* / state-writer:* (which kind of window the builders read / the slots hold); non-trivial = history with >= 2 compared set-up calls; distinct by case hash')
 NEEDS_DRIVER = True
 
@@ -1849,6 +1961,7 @@ NEEDS_DRIVER = True
 def scenarios(seed, tier):
     n, m = (400, 250) if tier == 'quick' else (2500, 1500)
     nf, nd = (150, 150) if tier == 'quick' else (1200, 1200)
+    nr = 150 if tier == 'quick' else 1200
     rnd = random.Random(seed * 7919 + 10)
     for name, c in witness_cases().items():
         yield 'witness:' + name, c
@@ -1861,6 +1974,9 @@ def scenarios(seed, tier):
         yield 'freq%d' % i, gen_freq_case(random.Random(rnd2.getrandbits(48)))
     for i in range(nd):
         yield 'data%d' % i, gen_data_case(random.Random(rnd2.getrandbits(48)))
+    rnd3 = random.Random(seed * 7919 + 2010)
+    for i in range(nr):
+        yield 'ramp%d' % i, gen_ramp_case(random.Random(rnd3.getrandbits(48)))
 
 
 def _step_of(freq):
@@ -1889,6 +2005,15 @@ def case_features(case):
             for k in KEY_PARAMS:
                 if isinstance(a.get('args', {}).get(k), str):
                     f.append('case:data-key:' + k)
+            if any(k in a.get('args', {}) for k in PROFILE_ARGS):
+                f.append('case:ramp-profiles,ramp_freq-%s' % ('set' if a['args'].get('ramp_freq') is not None else 'None'))
+                if any(k.endswith('_heat') and k in a['args'] for k in PROFILE_ARGS):
+                    f.append('case:ramp-profiles,heat')
+                # the same plant set up (directly or with the portfolio) on grids of different main time units, one after the other
+                units = [case['grids'][h['grid']]['unit'] for h in case['history'] if h['op'] in SETUP_OPS and 'grid' in h and not h.get('noarg')
+                         and h['grid'] < len(case['grids']) and (h['op'] != 'asset_setup' or h.get('asset') == a['name'])]
+                if len(set(units)) > 1:
+                    f.append('case:ramp-profiles,set-up-under-several-main-time-units')
     seq = [(h['grid'], h.get('reuse'), h['prices']) for h in case['history']
            if h['op'] in ('pf_setup', 'io_optimize') and not h.get('interval') and not h.get('noarg')]
     if any(a[0] == b[0] and b[1] and a[2] != b[2] for a, b in zip(seq, seq[1:])):
